@@ -835,4 +835,116 @@ theorem C12_dataclass_list_nec_witness :
       rw [this] at h; simp at h,
     by rfl⟩
 
+/-! ### Union targets: the stages built from the flags (rule.py:381-431) -/
+
+open Utv.C12M in
+/-- **C12_union_ndl**: a Union parsed with no_data_loss (alone or together with no_explicit_cast) returns
+exactly what it returns without preferences — for *every* member converter: the stages a preference leaves
+are a prefix-compatible selection of the lenient stages (strict stage first, then the no-loss stage). -/
+theorem C12_union_ndl (conv : Flags → Target → V → Outcome V) (n : Bool) (ts : List Target) (v r : V)
+    (h : unionParse conv ⟨n, true⟩ ts v = .ok r) : unionParse conv ⟨false, false⟩ ts v = .ok r := by
+  unfold unionParse at h ⊢
+  split at h
+  · rename_i h1; simp only [h1, if_true]; exact h
+  · rename_i h1; simp only [h1]
+    cases n
+    · -- no_data_loss only: strict stage, then the context's own flags = the lenient run's no-loss stage
+      simp only [Bool.not_true, Bool.not_false, Bool.false_or, Bool.or_true, Bool.true_or, Bool.false_and, Bool.and_false,
+        if_true, Bool.false_eq_true, if_false, Bool.true_and, Outcome.ok_bind] at h ⊢
+      obtain ⟨s2, hs2, h2⟩ := Outcome.bind_eq_ok.mp h
+      simp only [hs2, Outcome.ok_bind]
+      cases s2 with
+      | some x => exact h2
+      | none =>
+        simp only [] at h2 ⊢
+        obtain ⟨s4, hs4, h4⟩ := Outcome.bind_eq_ok.mp h2
+        simp only [hs4, Outcome.ok_bind]
+        cases s4 with
+        | some x => exact h4
+        | none => simp at h4
+    · -- both preferences: only the last stage runs, with both flags = the lenient run's strict stage
+      simp only [Bool.not_true, Bool.or_self, Bool.false_eq_true, if_false, Bool.and_self, Outcome.ok_bind] at h
+      simp only [Bool.not_false, Bool.or_self, if_true]
+      obtain ⟨s4, hs4, h4⟩ := Outcome.bind_eq_ok.mp h
+      simp only [hs4, Outcome.ok_bind]
+      cases s4 with
+      | some x => exact h4
+      | none => simp at h4
+
+open Utv.C12M in
+/-- known defect `union-member-choice-under-nec`: with no_explicit_cast alone, when no member accepts the value
+strictly, the last stage runs under no_explicit_cast and may pick another member than the lenient run's
+no-loss / lenient stages (3.5 as Union[int, str]: 3 under no_explicit_cast, '3.5' without) -/
+def KnownDefect.unionNecChoice (conv : Flags → Target → V → Outcome V) (f : Flags) (ts : List Target) (v : V) : Bool :=
+  f.nec && !f.ndl && (match firstOk (fun t => conv ⟨true, true⟩ t v) ts with
+    | .ok (some _) => false
+    | _ => true)
+
+open Utv.C12M in
+/-- **C12_union_mono_partial**: a Union under any combination of the preferences returns what it returns
+without them, outside `unionNecChoice`.  (Full statement = without `hk`; false of the code: witness below.) -/
+theorem C12_union_mono_partial (conv : Flags → Target → V → Outcome V) (f : Flags) (ts : List Target) (v r : V)
+    (hk : KnownDefect.unionNecChoice conv f ts v = false)
+    (h : unionParse conv f ts v = .ok r) : unionParse conv ⟨false, false⟩ ts v = .ok r := by
+  obtain ⟨n, d⟩ := f
+  cases d
+  · cases n
+    · exact h
+    · -- no_explicit_cast only, and some member accepts strictly: the strict stage decides in both runs
+      simp only [KnownDefect.unionNecChoice, Bool.not_false, Bool.true_and] at hk
+      unfold unionParse at h ⊢
+      split at h
+      · rename_i h1; simp only [h1, if_true]; exact h
+      · rename_i h1; simp only [h1]
+        simp only [Bool.not_false, Bool.true_or, Bool.or_true, if_true] at h ⊢
+        cases hs : firstOk (fun t => conv ⟨true, true⟩ t v) ts with
+        | ok o =>
+          cases o with
+          | some x => simp only [hs, Outcome.ok_bind] at h ⊢; exact h
+          | none => simp [hs] at hk
+        | perr e => simp [hs] at h
+        | escape e => simp [hs] at h
+        | diverge => simp [hs] at h
+        | unmodelled w => simp [hs] at h
+  · exact C12_union_ndl conv n ts v r h
+
+/-- `str(3.5)` for the witness below -/
+def Pstr : Prims := { P0 with strOf := fun _ => .ok "3.5" }
+
+open Utv.C12M in
+theorem C12_union_nec_choice_witness :
+    ∃ (P : Prims) (E : Env) (ts : List Target) (v r r' : V),
+      unionParse (transform P E) ⟨true, false⟩ ts v = .ok r ∧ unionParse (transform P E) ⟨false, false⟩ ts v = .ok r' ∧
+      r ≠ r' ∧ KnownDefect.unionNecChoice (transform P E) ⟨true, false⟩ ts v = true :=
+  ⟨Pstr, E0, [.cls .int 0, .cls .str 0], .float 0 (.fin 7 (-1)), .int 0 3, .str 0 "3.5", by rfl, by rfl, by simp, by rfl⟩
+
+open Utv.C12M in
+/-- **C12_ndl_dataclass_instances**: under no_data_loss a list / tuple of several items never reaches a data
+class — whatever the items are (dicts, instances of the class, anything) and wherever they stand; and the
+preference only restricts this step (same instance returned / same value handed to `init_dataclass`). -/
+theorem C12_ndl_dataclass_instances (isExact isInst : V → Bool) (allowSub n : Bool) :
+    (∀ k c x y rest, (k = SeqK.list ∨ k = SeqK.tuple) →
+      dataclassStep isExact isInst allowSub ⟨false, true⟩ (.seq k c (x :: y :: rest)) = .perr .typeError) ∧
+    (∀ v r, dataclassStep isExact isInst allowSub ⟨n, true⟩ v = .ok r →
+      dataclassStep isExact isInst allowSub ⟨n, false⟩ v = .ok r) := by
+  constructor
+  · intro k c x y rest hk
+    rcases hk with rfl | rfl <;> simp [dataclassStep]
+  · intro v r h
+    cases n
+    · cases v with
+      | seq k c xs =>
+        simp only [dataclassStep] at h ⊢
+        by_cases hc : ((k == SeqK.list || k == SeqK.tuple) && !false) = true
+        · simp only [hc, if_true] at h ⊢
+          cases xs with
+          | nil => exact h
+          | cons a as =>
+            cases as with
+            | nil => simpa using h
+            | cons b bs => simp at h
+        · simp only [hc] at h ⊢; exact h
+      | _ => simpa [dataclassStep] using h
+    · cases v <;> simpa [dataclassStep] using h
+
 end Utv.C12
